@@ -23,6 +23,9 @@ func init() {
 
 func runC02(c *Ctx, i int, r *rand.Rand) {
 	s := genScenario(r, ScenOpts{Timeouts: true, Headers: chance(r, 30)}, fmt.Sprintf("mk%d", i))
+	if s != nil && s.Req.Form != FGRPC && chance(r, 10) {
+		s.Req.HTTP3 = true // the transcoder mounted on an HTTP/3 server
+	}
 	e, err := runRPC(s.Cfg, s.Req, s.Script, r, &execOpts{Chunks: chunkPlan(r)})
 	if err != nil {
 		c.Violate(i, "harness/build", err.Error())
